@@ -2,6 +2,7 @@
 # runs every registered check at the given tier, one after the other; prints one line per check
 TIER=${1:-quick}
 cd "$(dirname "$0")" && HERE=$(pwd) && export VERIF_DIR=$HERE && ./run.sh build || exit 2
+export GOMAXPROCS=${GOMAXPROCS:-16} GOGC=${GOGC:-300} GOMEMLIMIT=${GOMEMLIMIT:-24GiB}
 rc=0
 for id in $(python3 -c "import json;print(' '.join(c['property_id'] for c in json.load(open('MANIFEST.json'))['checks']))"); do
   s=$(date +%s)
